@@ -19,7 +19,7 @@ def lib_script(g, rng, name, allow_params=True):
 def call_stmt(g, rng, lib, main_params):
     """a call of library `lib` (dict with name, modes, params): mostly well formed, sometimes with exactly one defect"""
     nm, nmodes, params = lib["name"], len(lib["modes"]), list(lib["params"])
-    modes = rng.sample(range(0, 9), nmodes) if rng.random() < 0.9 else [rng.randrange(0, 4) for _ in range(nmodes)]
+    modes = rng.sample(range(0, max(9, nmodes + 3)), nmodes) if rng.random() < 0.9 else [rng.randrange(0, 4) for _ in range(nmodes)]
     kw = []
     rng.shuffle(params)
     for p in params:
@@ -33,7 +33,7 @@ def call_stmt(g, rng, lib, main_params):
         kw.append({"k": p, "v": v})
     fault = rng.random()
     if fault < 0.04:
-        modes = modes + [9]
+        modes = modes + [max(modes + [8]) + 1]
     elif fault < 0.08 and len(modes) > 1:
         modes = modes[:-1]
     elif fault < 0.11 and kw:
